@@ -83,8 +83,15 @@ fn execute(prop: &str, case: &str) -> String {
 /// Writes `case\tobserved` per line. With a cases file, runs exactly those cases (replay).
 fn main() {
     let args: Vec<String> = std::env::args().collect();
+    if args.len() == 6 && args[1] == "gen" {
+        // harness gen <Cxx> <tier> <seed> <outfile>: only write the generated case lines
+        let mut rng = Rng::new(args[4].parse().expect("seed"));
+        let cases = generate(&args[2], &args[3], &mut rng);
+        std::fs::write(&args[5], cases.join("\n") + "\n").unwrap();
+        return;
+    }
     if args.len() < 6 || args[1] != "run" {
-        eprintln!("usage: harness run <Cxx> <tier> <seed> <outfile> [<casesfile>]");
+        eprintln!("usage: harness run <Cxx> <tier> <seed> <outfile> [<casesfile>] | harness gen <Cxx> <tier> <seed> <outfile>");
         std::process::exit(2);
     }
     silence_panics();
